@@ -16,6 +16,7 @@ import (
 	"os"
 	"sort"
 	"strings"
+	"time"
 
 	"github.com/janelia-flyem/dvid/datatype/common/labels"
 	"github.com/janelia-flyem/dvid/datatype/common/proto"
@@ -984,6 +985,106 @@ func (s *c08Sess) indexEchoEpisode() {
 	s.checkVersion(n)
 }
 
+// sparsevolGapEpisode (own instance, own oracle): a body whose voxels lie in two blocks of one block row that are
+// not neighbours — the block between holds none of it — with runs that end on the first block's east face and
+// start on the later block's west face; sparse volumes (rles, srles), size and coarse volume are compared with
+// the written voxels
+func (s *c08Sess) sparsevolGapEpisode() {
+	w := s.w
+	name := fmt.Sprintf("gap%d", w.r.Intn(1<<30))
+	var n *wnode
+	for _, x := range w.open() {
+		n = x
+	}
+	if n == nil {
+		return
+	}
+	if r := w.must("POST", "repo/"+n.uuid+"/instance", []byte(fmt.Sprintf(`{"typename":"labelmap","dataname":%q,"BlockSize":"32,32,32"}`, name))); !r.OK() {
+		return
+	}
+	a, b := uint64(501+w.r.Intn(50)), uint64(601+w.r.Intn(50))
+	gap := 1 + w.r.Intn(2) // blocks between the two
+	k := 4 + w.r.Intn(12)
+	want := map[[3]int]bool{}
+	put := func(bx int, sv uint64, x0, x1 int) bool {
+		blk := make([]uint64, 32*32*32)
+		for z := 0; z < k; z++ {
+			for y := 0; y < k; y++ {
+				for x := x0; x < x1; x++ {
+					blk[(z*32+y)*32+x] = sv
+					want[[3]int{bx*32 + x, y, z}] = true
+				}
+			}
+		}
+		r, ok := s.ch.HTTP("POST", fmt.Sprintf("node/%s/%s/raw/0_1_2/32_32_32/%d_0_0", n.uuid, name, bx*32), u64le(blk))
+		return ok && r.OK()
+	}
+	if !put(0, a, 32-k, 32) || !put(1+gap, b, 0, k) {
+		return
+	}
+	s.ch.AskT("SETTLE "+n.uuid+" "+name, 20*time.Second)
+	body, _ := json.Marshal([]uint64{a, b})
+	if r, ok := s.ch.HTTP("POST", "node/"+n.uuid+"/"+name+"/merge", body); !ok || !r.OK() {
+		return
+	}
+	s.ch.AskT("SETTLE "+n.uuid+" "+name, 20*time.Second)
+	hist := fmt.Sprintf("instance %s: supervoxel %d in block (0,0,0) at x %d..31, supervoxel %d in block (%d,0,0) at x 0..%d, rows y,z < %d; merge [%d %d]", name, a, 32-k, b, 1+gap, k-1, k, a, b)
+	s.c.Count("episode sparsevol-gap")
+	for _, f := range []string{"rles", "srles"} {
+		r, ok := s.ch.HTTP("GET", fmt.Sprintf("node/%s/%s/sparsevol/%d?format=%s", n.uuid, name, a, f), nil)
+		if !ok || !r.OK() {
+			s.fail("C08 sparsevol-fails", "a sparse volume of an existing body cannot be read", hist+"\n"+r.String())
+			return
+		}
+		var runs [][4]int32
+		var e string
+		if f == "rles" {
+			runs, e = decodeSparse(r.Body)
+		} else {
+			if len(r.Body)%16 != 0 {
+				e = "streaming runs not a multiple of 16 bytes"
+			}
+			for i := 0; i+16 <= len(r.Body); i += 16 {
+				var q [4]int32
+				for j := 0; j < 4; j++ {
+					q[j] = int32(binary.LittleEndian.Uint32(r.Body[i+4*j:]))
+				}
+				runs = append(runs, q)
+			}
+		}
+		if e != "" {
+			s.fail("C08 sparsevol-malformed", "a sparse volume cannot be decoded", hist+"\n"+e)
+			return
+		}
+		got := map[[3]int]bool{}
+		for _, q := range runs {
+			for x := int(q[0]); x < int(q[0])+int(q[3]); x++ {
+				got[[3]int{x, int(q[1]), int(q[2])}] = true
+			}
+		}
+		s.c.Eval("sparsevol gap "+f+" "+hist, true)
+		extra, missing := 0, 0
+		var ex, mi [3]int
+		for p := range got {
+			if !want[p] {
+				extra++
+				ex = p
+			}
+		}
+		for p := range want {
+			if !got[p] {
+				missing++
+				mi = p
+			}
+		}
+		if extra > 0 || missing > 0 {
+			s.fail("C08 sparsevol-differs", "the sparse volume of a body is not the set of voxels mapped to it",
+				fmt.Sprintf("%s\nGET sparsevol/%d?format=%s: %d voxels reported that the body does not have (e.g. %v), %d voxels of the body missing (e.g. %v)", hist, a, f, extra, ex, missing, mi))
+			return
+		}
+	}
+}
+
 func runC08(c *Ctx) {
 	c.Rule = "a case is one body (or one whole-version read) of one version of a labelmap after a generated history of block ingests, mutating block overwrites (new and re-used supervoxels, supervoxels spanning blocks, background), merges, cleaves, supervoxel splits and renumberings interleaved with commit / new version / branch, compared with a scan of the written voxels under that version's supervoxel→body mapping: size, supervoxels, supervoxel-sizes, index (per block and supervoxel), sparsevol (rles, srles), sparsevol-coarse, sparsevol-size, raw and blocks (mapped and supervoxels), labels, label/<pt>, mapping, sizes, listlabels, existing-labels, maxlabel — at every version, so ancestors and siblings are re-checked after later operations; or one label-index operation compared with the Lean model. non-trivial = the body has several supervoxels or spans several blocks; distinct by content"
 	c.c08Index(map[bool]int{false: 600, true: 6000}[c.Thorough])
@@ -1017,6 +1118,10 @@ func runC08(c *Ctx) {
 			}
 			if i == episodeAt+7 || i == episodeAt+12 {
 				s.indexEchoEpisode()
+				continue
+			}
+			if i == episodeAt+9 {
+				s.sparsevolGapEpisode()
 				continue
 			}
 			if i == episodeAt+8 || i == episodeAt+11 || i == episodeAt+13 {
